@@ -10,6 +10,7 @@ CONSTANTS
   FixStats = TRUE
   AtomicAdd = TRUE
   TakeRegistry = TRUE
+  DrainLatchFirst = TRUE
   Det = FALSE
 POSTCONDITION TraceReport
 CHECK_DEADLOCK FALSE
